@@ -339,6 +339,69 @@ theorem C16_request_bytes (I : Interp) (size : Int) (h : Handle) (q : Query) (pr
     · intro hv
       exact (C19_pagedResults_req ⟨size, ck⟩ hs.1 hs.2 hv).2.2
 
+/-- every element of the prescribed request sequence is a `pagedReq` with some cookie -/
+theorem pagedRequests_form (mk : Bytes → Bool → Req) : ∀ (pages : List Page) (ck : Bytes) (r : Req),
+    r ∈ pagedRequests mk ck pages → ∃ ck' b, r = mk ck' b
+  | [], ck, r, h => by
+    simp only [pagedRequests, List.mem_singleton] at h
+    exact ⟨ck, true, h⟩
+  | .fail _ :: _, ck, r, h => by
+    simp only [pagedRequests, List.mem_singleton] at h
+    exact ⟨ck, false, h⟩
+  | .script l :: ps, ck, r, h => by
+    simp only [pagedRequests, List.mem_cons] at h
+    rcases h with h | h
+    · exact ⟨ck, true, h⟩
+    · cases hn : nextCookie l with
+      | none => rw [hn] at h; cases h
+      | some ck' => rw [hn] at h; exact pagedRequests_form mk ps ck' r h
+
+/-- The same down to the bytes when PagedResults is chained with EntriesOnly, in either order: whenever such a
+run ends in state Done, EVERY request it issued, written under any message ID, reads back as the caller's search
+with the caller's other controls in order followed by one paging control of the requested size (its cookie:
+`C16_behind_entries_only` (2) says which — the prescribed sequence). -/
+theorem C16_request_bytes_behind_entries_only (I : Interp) (size : Int) (h : Handle) (pages : List Page) (q : Query)
+    (calls : List Call) (hh : (h.ctrls.getD []).any RCtl.isPaged = false) (hq : q.filterOk = true)
+    (hnf : ∀ k ∈ calls, k ≠ .finish) (chain : List Adapter) (hc : chain = [eo, pr size] ∨ chain = [pr size, eo])
+    (hns : ∀ o ∈ run (init chain h pages) (.start q :: calls), o.stuck = false)
+    (hd : (exec (init chain h pages) (.start q :: calls)).s.state = .done)
+    (r : Req) (hr : r ∈ (exec (init chain h pages) (.start q :: calls)).s.reqs)
+    (id : Nat) (hid : 1 ≤ id ∧ id < 2147483648)
+    (ho : Ldap3V.Spec.I32 (I.optsOf h.opts).sizeLimit ∧ Ldap3V.Spec.I32 (I.optsOf h.opts).timeLimit)
+    (hf : Ldap3V.Spec.lowTags (I.filter q.tok) = true ∧ (I.filter q.tok).depth ≤ 62)
+    (hl : (I.bytes id r).length < 18446744073709551616) :
+    ∃ ck t, parseTag (I.bytes id r) = .ok t [] ∧
+      Ldap3V.Spec.decodeRequest t = some (id,
+        .search (I.base q.tok) (I.scope q.tok) (I.optsOf h.opts).deref (I.optsOf h.opts).sizeLimit
+          (I.optsOf h.opts).timeLimit (I.optsOf h.opts).typesOnly (I.filter q.tok) (I.attrs q.tok),
+        some ((othersOf h).map I.rctl ++ [Codecs.encPagedResults ⟨size, ck⟩])) := by
+  rw [(C16_behind_entries_only size h pages q calls hh hq hnf).2.2.2 chain hc hns hd] at hr
+  obtain ⟨ck, b, rfl⟩ := pagedRequests_form _ pages [] r hr
+  have hb : I.bytes id (pagedReq size (othersOf h) h.opts h.tmo q ck b) =
+      encodeMsg (id : Int) (build (.search (I.base q.tok) (I.scope q.tok) (I.optsOf h.opts).deref
+        (I.optsOf h.opts).sizeLimit (I.optsOf h.opts).timeLimit (I.optsOf h.opts).typesOnly (I.filter q.tok)
+        (I.attrs q.tok))) (some ((othersOf h).map I.rctl ++ [Codecs.encPagedResults ⟨size, ck⟩])) := by
+    simp [Interp.bytes, Interp.request, Interp.ctrls, pagedReq, Interp.rctl]
+  rw [hb] at hl ⊢
+  have hw : Ldap3V.Spec.WFReq (.search (I.base q.tok) (I.scope q.tok) (I.optsOf h.opts).deref
+      (I.optsOf h.opts).sizeLimit (I.optsOf h.opts).timeLimit (I.optsOf h.opts).typesOnly (I.filter q.tok)
+      (I.attrs q.tok)) := ⟨rfl, ho⟩
+  obtain ⟨t, ht, hdec⟩ := C02_roundtrip_bytes id _ _ hid hw hf hl
+  exact ⟨ck, t, ht, hdec⟩
+
+/-- the hypotheses of `C16_request_bytes_behind_entries_only` are met by the three-page run of the example above
+(EntriesOnly in front): it ends in Done, no output is stuck, three requests were issued -/
+example :
+    let pages := pagesOf
+      [⟨[⟨.entry, 1, none, []⟩, ⟨.ref, 2, some [[0x61]], []⟩], ⟨0, [], [⟨true, some [7], 0⟩], .server 3⟩, []⟩,
+       ⟨[⟨.inter, 8, none, []⟩], ⟨0, [], [⟨true, some [8], 0⟩], .server 4⟩, []⟩]
+      ⟨[⟨.ref, 9, some [[0x62]], []⟩, ⟨.entry, 5, none, []⟩], ⟨0, [[0x63]], [⟨true, some [], 0⟩], .server 6⟩, []⟩ []
+    let calls : List Call := [.next, .next, .next]
+    (exec (init [eo, pr 2] {} pages) (.start ⟨1, true⟩ :: calls)).s.state = .done ∧
+    (run (init [eo, pr 2] {} pages) (.start ⟨1, true⟩ :: calls)).all (fun o => !o.stuck) = true ∧
+    (exec (init [eo, pr 2] {} pages) (.start ⟨1, true⟩ :: calls)).s.reqs.map (·.ctrls) =
+      [some [.paged 2 []], some [.paged 2 [7]], some [.paged 2 [8]]] := by decide +kernel
+
 /-- an interpretation for the examples: base `o=x`, whole subtree, filter `(cn=*)`, attribute `*`; the other
 control is ManageDsaIT-like (OID `1`, critical, no value); options: deref always, typesOnly, limits 5 s / 7 -/
 def C16_demoI : Interp :=
